@@ -54,7 +54,8 @@ def main():
     # 3. run the checks against the changed tree
     results = {}
     if confirmed:
-        cenv = dict(os.environ, VERIF_REPO=wt, VERIF_WORK="/tmp/seedwork", VERIF_REPLAY_DIR="/tmp/seedwork/replay-out", VERIF_EVIDENCE_DIR="/tmp/seedwork/evidence")
+        sw = os.environ.get("SEED_WORK", "/tmp/seedwork")
+        cenv = dict(os.environ, VERIF_REPO=wt, VERIF_WORK=sw, VERIF_REPLAY_DIR=sw + "/replay-out", VERIF_EVIDENCE_DIR=sw + "/evidence")
         for p in props:
             t0 = time.time()
             rc, out = sh([os.path.join(ROOT, "check"), p, "--tier", tier], cwd=ROOT, env=cenv, timeout=7200)
